@@ -420,3 +420,36 @@ Example ex_resub_terminates :
   check_case (true, true, rs_l,
               rs_tr ++ [ERecv 1 0; EImplClose 1; EImplClose 1; EDisc; ESubRet RCanceled; ECloseRet true]) = [].
 Proof. vm_compute. reflexivity. Qed.
+
+(** * Round 6: a Poll round outstanding while Close is called *)
+
+(** The poller never holds a lock across a step, so the termination theorem
+    (which now quantifies over executions with poller steps in them) says that
+    Subscribe and Close return whatever Poll rounds are outstanding.  The
+    poller itself is not left behind either: once the context of the
+    transport is cancelled or the transport it reads from has been closed, a
+    stalled poll round has a step, and Poll returns after at most [mu_p] of its
+    own steps. *)
+Lemma poll_round_wakes s a j :
+  p_pc s = PRound a j -> (cancelled s = true \/ p_wake s = true \/ a = true) ->
+  pstep s <> [].
+Proof.
+  intros H Hc. unfold pstep. rewrite H. destruct a; [discriminate|].
+  destruct Hc as [Hc|[Hc|Hc]]; try discriminate; rewrite Hc; rewrite ?orb_true_r; discriminate.
+Qed.
+
+Lemma poll_steps_bounded s l s1 :
+  In (l, s1) (pstep s) -> is_call l = false -> mu_p s1 < mu_p s.
+Proof.
+  intros H Hn. dst s; unfold pstep, mu_p in *; cbn in *;
+  crunch H; cbn in *; try discriminate; splitifs; cbn; lia.
+Qed.
+
+(** Close called while a stalled Poll round is outstanding on the stream of a
+    ReconnectClient: accepted, everything returns *)
+Example ex_close_during_poll :
+  check_case (true, true, [ {| a_init := true; a_sub := true; a_items := [IMsg 1; IBlock] |} ],
+              [ESubCall; EFactory 0; EImplSub 0; ERecv 0 0; EConn; EUpd 0 0 0; ERecv 0 1;
+               EPollCall false; ECloseCall; EImplClose 0; EImplClose 0; EPollRet false;
+               EImplClose 0; EDisc; ESubRet RCanceled; ECloseRet true]) = [].
+Proof. vm_compute. reflexivity. Qed.
